@@ -30,12 +30,15 @@ theorem refines (ops : List Op) (h : WF ops) :
     (∀ x, x ∈ (run ops).peerLinks ↔ x ∈ (run ops).links) ∧
     (∀ i, i ∈ (run ops).closed ↔ i ∈ (specRun ops).closed) ∧
     (run ops).running = (specRun ops).running ∧ (run ops).localPeer = (specRun ops).localPeer := by
-  sorry
+  have hI := inv_run ops (wfh_of_eq (f := linkOf) (by funext op; cases op <;> rfl) h)
+  exact ⟨hI.links_eq, hI.peer, hI.closed, hI.running, hI.localPeer⟩
 
 /-- The set reported for each peer is the set of live links to that peer. -/
 theorem getPeerLinks_eq (ops : List Op) (h : WF ops) (p : Nat) :
     getPeerLinks (run ops) p = (specRun ops).live.filter (fun x => x.remote = p) := by
-  sorry
+  have hI := inv_run ops (wfh_of_eq (f := linkOf) (by funext op; cases op <;> rfl) h)
+  unfold getPeerLinks
+  rw [hI.links_eq]
 
 /-- Table invariants: at most one link per uuid, at most one entry per link object, no link
 to the local peer itself, and nothing at all while the transport is not running. -/
@@ -43,14 +46,15 @@ theorem table_invariant (ops : List Op) (h : WF ops) :
     ((run ops).links.map (·.uuid)).Nodup ∧ ((run ops).links.map (·.id)).Nodup ∧
     (∀ x ∈ (run ops).links, x.remote ≠ (run ops).localPeer) ∧
     ((run ops).running = false → (run ops).links = []) := by
-  sorry
+  have hI := inv_run ops (wfh_of_eq (f := linkOf) (by funext op; cases op <;> rfl) h)
+  exact ⟨hI.nd_uuid, hI.nd_id, hI.notself, hI.stopped⟩
 
 /-- A lost link is closed and gone… -/
 theorem lost_is_closed_and_gone (ops : List Op) (l : Link) (h : WF (ops ++ [.lost l])) :
     l ∉ (run (ops ++ [.lost l])).links ∧
     (∀ p, l ∉ getPeerLinks (run (ops ++ [.lost l])) p) ∧
     (l ∈ (run ops).links → l.id ∈ (run (ops ++ [.lost l])).closed) := by
-  sorry
+  exact lost_gone (wfh_of_eq (f := linkOf) (by funext op; cases op <;> rfl) h)
 
 /-- …and is never reported again unless the transport reports that same link object
 established again (PARTIAL reading of "never reported again": see `lost_never_again_false`). -/
@@ -58,13 +62,14 @@ theorem lost_never_again_partial (pre post : List Op) (l : Link)
     (h : WF (pre ++ [.lost l] ++ post))
     (hno : ∀ op ∈ post, op ≠ .est l) :
     l ∉ (run (pre ++ [.lost l] ++ post)).links := by
-  sorry
+  have hw : WFH (pre ++ [.lost l] ++ post) := (wfh_of_eq (f := linkOf) (by funext op; cases op <;> rfl) h)
+  exact lost_never_again pre l (WFH_prefix hw) post hno
 
 /-- Losing a link never removes any OTHER link — in particular not a newer link that replaced
 it under the same uuid (late loss). -/
 theorem late_loss_keeps_others (ops : List Op) (l : Link) (h : WF (ops ++ [.lost l])) :
     ∀ x ∈ (run ops).links, x.id ≠ l.id → x ∈ (run (ops ++ [.lost l])).links := by
-  sorry
+  exact lost_keeps_others (wfh_of_eq (f := linkOf) (by funext op; cases op <;> rfl) h)
 
 /-- The classic late-loss history, for every prefix: establish l1, replace it by l2 (same uuid),
 then the loss of l1 arrives: l2 stays. -/
@@ -74,7 +79,8 @@ theorem late_loss_keeps_replacement (ops : List Op) (l1 l2 : Link)
     (hrun : (run ops).running = true) (hself : l2.remote ≠ (run ops).localPeer) :
     l2 ∈ (run (ops ++ [.est l1, .est l2, .lost l1])).links ∧
     l1 ∉ (run (ops ++ [.est l1, .est l2, .lost l1])).links := by
-  sorry
+  have _ := hu  -- (the uuids need not even agree)
+  exact late_loss_replacement hid (wfh_of_eq (f := linkOf) (by funext op; cases op <;> rfl) h) hrun hself
 
 /-- Known finding (strict reading): "a lost link is never reported again" is FALSE when the
 establishment of a link is processed after its loss (the two callbacks are delivered
@@ -82,7 +88,10 @@ asynchronously): the dead link is entered in the tables. -/
 theorem lost_never_again_false :
     ¬ (∀ (pre post : List Op) (l : Link), WF (pre ++ [.lost l] ++ post) →
         l ∉ (run (pre ++ [.lost l] ++ post)).links) := by
-  sorry
+  intro hall
+  have hwf : WF ([.start 1] ++ [.lost ⟨1, 7, 2⟩] ++ [.est ⟨1, 7, 2⟩]) := by
+    unfold WF; decide
+  exact hall [.start 1] [.est ⟨1, 7, 2⟩] ⟨1, 7, 2⟩ hwf (by decide)
 
 /-- Non-vacuity. -/
 example : (run [.start 1, .est ⟨1, 7, 2⟩, .est ⟨2, 7, 2⟩, .lost ⟨1, 7, 2⟩]).links = [⟨2, 7, 2⟩] := by
